@@ -108,6 +108,44 @@ def check_mask(o):
     return bad
 
 
+def check_nudge(o):
+    """points a 2^-40 step off the edges / vertices of the triangulation: in or out exactly as the infinitesimal test says"""
+    from menpo.image.boolean import pwa_point_in_pointcloud
+    from menpo.shape import TriMesh
+    from menpo.transform.piecewiseaffine.base import TriangleContainmentError
+
+    bad = []
+    c = o["case"]
+    eps = 2.0 ** -40
+    base, dirs = L.pts(o["pts"]), L.pts(o["dirs"])
+    pts = base + eps * dirs
+    want = np.array(o["outmask"], dtype=bool)
+    img = L.pts(o["img"])
+    b = c["batch"] or None
+    if not want.any() or want.all():
+        raise AssertionError("degenerate nudge case")
+    for cls in ("PiecewiseAffine", "PythonPWA"):
+        w, S, T = _pwa(o, cls)
+        try:
+            w.apply(pts.copy(), batch_size=b)
+            bad.append((cls + ": points a 2^-40 step outside the triangulation were accepted", {"batch": b}, None))
+        except TriangleContainmentError as e:
+            m = np.asarray(e.points_outside_source_domain).astype(bool)
+            if m.shape != want.shape or not np.array_equal(m, want):
+                k = int(np.argwhere(m != want)[0][0]) if m.shape == want.shape else -1
+                bad.append((cls + ": a point a 2^-40 step off an edge is classified on the wrong side",
+                            {"batch": b, "point": base[k].tolist() if k >= 0 else None, "direction": dirs[k].tolist() if k >= 0 else None,
+                             "reported_outside": bool(m[k]) if k >= 0 else None}, None))
+        inside = ~want
+        got = w.apply(pts[inside].copy(), batch_size=b)
+        if not np.allclose(got, img[inside], atol=1e-9):
+            bad.append((cls + ": the image of a point a 2^-40 step inside an edge is not (within 1e-9 of) the image of the edge point", {"batch": b}, None))
+    flags = np.asarray(pwa_point_in_pointcloud(TriMesh(L.pts(o["S"]), trilist=np.array(o["tris"], dtype=int) - 1), pts.copy(), batch_size=b)).astype(bool)
+    if flags.shape != want.shape or not np.array_equal(flags, ~want):
+        bad.append(("pwa_point_in_pointcloud classifies a point a 2^-40 step off an edge on the wrong side", {"batch": b}, None))
+    return bad
+
+
 def check_tps(o):
     import menpo.transform as mt
     from menpo.shape import PointCloud
@@ -153,7 +191,7 @@ def check_tps(o):
     return bad
 
 
-CHECKS = {"pwa": check_pwa, "mask": check_mask, "tps": check_tps}
+CHECKS = {"pwa": check_pwa, "mask": check_mask, "tps": check_tps, "nudge": check_nudge}
 
 
 def run_case(o):
